@@ -114,6 +114,8 @@ let () = Reg.register "c14.pipeline" (fun inp out ->
   let model = if r.Templates.tr_fatal || e.Expand.res_error || e.Expand.res_fatal then L [A "err"]
     else L [A "ok"; put_nonterms e.Expand.res_nonterms; put_inputs e.Expand.res_inputs] in
   let verdict = match lst out with
-    | [A "ok"; _; _] -> if Expand.expand_checks m2 then "ok" else "bad:side-conditions-of-the-correctness-theorem-do-not-hold"
+    | [A "ok"; _; _] ->
+      if not (Expand.expand_checks m2) then "bad:side-conditions-of-the-correctness-theorem-do-not-hold"
+      else if not (ExpandWf.wf_model m2) then "bad:static-well-formedness-wf_model-does-not-hold" else "ok"
     | _ -> "ok" in
   (model, verdict))
